@@ -22,10 +22,18 @@ next session's `#!…` line appended directly behind it, can classify as — a d
 /-- bridge lemma (text level), "a torn line is garbage": a data line whose last tab-separated
 field contains a character that is not a digit never parses as a measurement — in particular
 no strict prefix of a measurement line with the next session's `#!command line` behind it. -/
-theorem c09_torn_is_garbage (pl : Payloads) (hdr pre cmd : Text) (t : Bool)
+theorem c09_torn_is_garbage (pl : Payloads) (hp : pl.profile = none) (hdr pre cmd : Text) (t : Bool)
     (hcmd : '\t' ∉ cmd) (m : Meas) :
     classify pl hdr ⟨pre ++ '#' :: '!' :: cmd, t⟩ ≠ .meas m :=
-  classify_glued_not_meas pl hdr pre cmd t hcmd m
+  classify_glued_not_meas pl hp hdr pre cmd t hcmd m
+
+/-- the same for a profile data file, where the last column is free text and the run id is the
+column before it: what rejects the glued line is the JSON check of the last column (repaired
+loader; the pinned loader does not check and can read such a line as a line of another run) -/
+theorem c09_torn_is_garbage_profile (pl : Payloads) (hpl : PlOk pl) (ok : Text → Bool)
+    (hp : pl.profile = some ok) (pre cmd : Text) (hc : cmdOk cmd = true) :
+    classifyProfile ok (splitOn '\t' (pre ++ sessLine cmd)) = .dataErr .value :=
+  classifyProfile_glued pl hpl ok hp pre cmd hc
 
 example : classify Payloads.none "h".toList ⟨"1\t1\t2.5".toList ++ '#' :: '!' :: "rebench -D c.conf".toList, true⟩
     = .dataErr .value := by decide
@@ -315,7 +323,7 @@ theorem c09_load_after_any_byte_prefix
 predicates on the rendered fields (`rendOk`, `dpOk`, `cmdOk`, `noCR`) and the decoders accepting
 the renderer's payloads (`RendFor`, `PlOk`). -/
 theorem c09_load_after_any_byte_prefix_rendered
-    (pl : Payloads) (R : Rend) (hR : rendOk R = true) (hpl : PlOk pl) (hfor : RendFor pl R)
+    (pl : Payloads) (hp : pl.profile = none) (R : Rend) (hR : rendOk R = true) (hpl : PlOk pl) (hfor : RendFor pl R)
     (oldText : Text) (hcr : noCR oldText = true) (st : LState)
     (hold : load Variant.repaired (records Variant.repaired pl R.hdr oldText) = .ok st)
     (cmd1 : Text) (empty1 : Bool) (ds1 : List WDP)
@@ -332,7 +340,7 @@ theorem c09_load_after_any_byte_prefix_rendered
                       ++ sessionsText st1.tables (later.map (fun s => mkSess R s.1 s.2.1 s.2.2)))) = .ok st3
             ∧ st3.loaded = st1.loaded ++ (later.flatMap (·.2.2)).map WDP.toDP := by
   have hh : '#' ∉ R.hdr := (rendOk_spec hR).2.2.2.2.2
-  have hs1 := mkSess_ok pl R hR hfor cmd1 hc1.1 hc1.2 empty1 ds1 hd1
+  have hs1 := mkSess_ok pl hp R hR hfor cmd1 hc1.1 hc1.2 empty1 ds1 hd1
   obtain ⟨st1, n, h1, hn, hl1, hrest⟩ :=
     c09_load_after_any_byte_prefix pl R.hdr hh hpl oldText hcr st hold (mkSess R cmd1 empty1 ds1) hs1 k
   refine ⟨st1, n, h1, hn, hl1, fun later hlater => ?_⟩
@@ -340,7 +348,7 @@ theorem c09_load_after_any_byte_prefix_rendered
     intro s hs
     obtain ⟨x, hx, rfl⟩ := List.mem_map.mp hs
     obtain ⟨c1, c2, c3⟩ := hlater x hx
-    exact mkSess_ok pl R hR hfor x.1 c1 c2 x.2.1 x.2.2 c3)
+    exact mkSess_ok pl hp R hR hfor x.1 c1 c2 x.2.1 x.2.2 c3)
   refine ⟨st3, h3, ?_⟩
   rw [hl3]
   congr 2
@@ -350,12 +358,12 @@ theorem c09_load_after_any_byte_prefix_rendered
 /-- non-vacuity of the byte-prefix theorem: a concrete renderer, decoders, command lines and data
 points (two criteria, two iterations) satisfy every hypothesis, from the empty file -/
 theorem c09_byte_prefix_hypotheses_hold :
-    rendOk exRend = true ∧ PlOk exPl ∧ RendFor exPl exRend ∧ noCR [] = true
+    exPl.profile = none ∧ rendOk exRend = true ∧ PlOk exPl ∧ RendFor exPl exRend ∧ noCR [] = true
     ∧ load Variant.repaired (records Variant.repaired exPl exRend.hdr []) = .ok LState.init
     ∧ (cmdOk "rebench -D t.conf".toList = true ∧ noCR "rebench -D t.conf".toList = true)
     ∧ (∀ d ∈ [(⟨0, 0, 1, 1, [("mem".toList, "7.000000".toList)], "3.000000".toList⟩ : WDP),
               ⟨0, 0, 1, 2, [], "4.000000".toList⟩], dpOk exRend d = true) :=
-  ⟨exRend_ok, exPl_ok, exRend_for, rfl, rfl, by decide, by decide⟩
+  ⟨rfl, exRend_ok, exPl_ok, exRend_for, rfl, rfl, by decide, by decide⟩
 
 /-- and one evaluated instance (202 bytes of text): a cut inside the first `total` line counts
 nothing, a cut inside the last line counts the first data point, the whole text both -/
@@ -420,6 +428,19 @@ theorem c09_unterminated_numeric_field :
 theorem c09_unterminated_repaired :
     ∃ st, load Variant.repaired (Rec.bench 0 0 :: Rec.run 0 0 0 :: records Variant.repaired Payloads.none hdr0 torn9)
       = .ok st := ⟨_, rfl⟩
+
+/-- witness 4 (profile data files, loader without the JSON check): a profile line of run 0 cut
+behind the tab after its `cores` column (`1`), the next session's `#!` line glued behind it: the
+remainder lands in the last column, the run id is read from the column before it — the line
+counts for run 1.  The repaired loader checks the JSON column first and drops the line. -/
+theorem c09_profile_torn_line_misread :
+    classify { Payloads.none with profile := some (fun _ => true) } hdr0
+        ⟨"2\t1\tB\tE\tS\t\t1\t".toList ++ sessLine "rebench -D c.conf".toList, true⟩
+      = .meas ⟨2, 1, sessLine "rebench -D c.conf".toList, totalName, true, 1⟩
+    ∧ classify { Payloads.none with profile := some (fun js => js.getLast? == some ']') } hdr0
+        ⟨"2\t1\tB\tE\tS\t\t1\t".toList ++ sessLine "rebench -D c.conf".toList, true⟩
+      = .dataErr .value := by
+  constructor <;> decide
 
 /-- the full statement is false of the pinned loader -/
 theorem c09_load_after_any_prefix_pinned_full_fails :
